@@ -341,6 +341,12 @@ def broad_queries():
             # the same question with one optional flag flipped, asked about the default and about the second
             # (richer) alternative of the leading argument: a memo whose key leaves a flag out answers one of
             # these with the other's result
+            # every other alternative of every parameter, one at a time
+            for i, alts in enumerate(given):
+                for j in range(1, len(alts)):
+                    args = [to_json_arg(a[0]) for a in given]
+                    args[i] = to_json_arg(alts[j])
+                    qs.append(Q(on[len("core."):], cname, *args))
             flags = [i for i, alts in enumerate(given) if i > 0 and len(alts) > 1 and all(isinstance(a, bool) for a in alts)]
             if flags:
                 for lead in range(min(2, len(given[0]))):
@@ -1149,6 +1155,66 @@ def gen_instances(shard):
         yield [owner_name, script]
 
 
+# ---------------------------------------------------------------------------------------
+# interference: what an operation does to one object does not depend on what was done to another one before
+# ---------------------------------------------------------------------------------------
+import importlib
+
+
+def _cold_class(ow):
+    """cold start: the module-level data, class attributes and mutable defaults of the theory modules and of the
+    container / MIDI modules are written back to what a cold interpreter holds (found by introspection, so a
+    table that a changed library adds is part of it)"""
+    ensure_tmp()
+    SPACE.install_cold()
+    CLS_SPACE.install_cold()
+
+
+def run_interference(case):
+    """case = [class, op_a, op_b]: b alone does op_b; in a second cold world another object a does op_a first
+    and then a separately created b does op_b: b must come out the same both times."""
+    S = engine.S
+    cname, op_a, op_b = case
+    judged = cname in JUDGED_CLASSES
+    ow = _owner(cname)
+    _cold_class(ow)
+    b = ow.make()
+    eff1 = apply_ops(cname, b, [op_b])
+    obs1 = observe(b)
+    _cold_class(ow)
+    a = ow.make()
+    apply_ops(cname, a, [op_a])
+    b = ow.make()
+    eff2 = apply_ops(cname, b, [op_b])
+    obs2 = observe(b)
+    S.outcome((cname, op_b[0], tuple(eff1), obs1 == obs2))
+    S.count("interference_pairs_checked")
+    if obs1 != pristine_of(ow):
+        S.count("interference_pairs_where_b_changed")
+    if obs1 != obs2 or eff1 != eff2:
+        d1, d2 = json.loads(obs1), json.loads(obs2)
+        _report(judged, "%s: b.%s(...) after another instance did a.%s(...)" % (cname, op_b[0], op_a[0]), d1, d2,
+                "the effect of an operation on one object depends on what was done to another object before",
+                {"kind": "interference", "class": cname})
+
+
+_PRISTINE = {}
+
+
+def pristine_of(ow):
+    k = ow.name if hasattr(ow, "name") else id(ow)
+    if k not in _PRISTINE:
+        _PRISTINE[k] = observe(ow.make())
+    return _PRISTINE[k]
+
+
+def gen_interference(shard):
+    cname, i = shard
+    ops = class_ops(cname)
+    for op_b in ops:
+        yield [cname, list(ops[i]), list(op_b)]
+
+
 COPY_SOURCES = {
     "Note": lambda: api.Note("C", 4, velocity=90, channel=3),
     "NoteContainer": lambda: api.NoteContainer([api.Note("C", 4, velocity=90), api.Note("E", 4), api.Note("G", 5)]),
@@ -1205,6 +1271,7 @@ CLAUSES = {
     "arguments": run_arguments,
     "instances": run_instances,
     "copies": run_copies,
+    "interference": run_interference,
 }
 KNOWN = {}
 
@@ -1276,6 +1343,11 @@ def explore(ctx):
             ctx.guard("instances: scripts that changed the operated instance", ctx.counter("scripts_that_changed_the_operated_instance"), 500)
             ctx.guard("instances: operations that returned", ctx.counter("ops_returned"), 2000)
 
+    if ctx.want("interference"):
+        jc = [c for c in classes if c in JUDGED_CLASSES]
+        ctx.product("interference", [(c, i) for c in jc for i in range(len(class_ops(c)))], gen_interference)
+        if not ctx.only:
+            ctx.guard("interference pairs", ctx.counter("interference_pairs_checked"), 2000)
     if ctx.want("copies"):
         maxlen = ctx.pick(2, 2)
         routes = sorted(COPY_SOURCES) + ["NoteContainer:add_notes", "NoteContainer:plus"]
